@@ -518,7 +518,7 @@ theorem refines_from (V : ValInj P) (sched : List Label) :
   | nil => intro s _ _ _ _; exact ⟨[], rfl⟩
   | cons l rest ih =>
     intro s inv hinj hown herr
-    obtain ⟨ls, hls⟩ := ih (Inv_step (T := T) V inv l) (Inj_step (T := T) inv hinj l) (Own_step hown l)
+    obtain ⟨ls, hls⟩ := ih (Inv_step (T := T) inv l (stepSafe_of_valInj V inv l)) (Inj_step (T := T) inv hinj l) (Own_step hown l)
       (ErrInv_step inv herr l)
     rw [sim_step V inv hinj hown herr l] at hls
     cases hl : lin s l with
@@ -606,6 +606,120 @@ theorem table_frame (V : ValInj P) {s : State Opts Factory} (inv : Inv P s) (hin
         simp only [List.cons.injEq] at htodo'
         obtain ⟨rfl, rfl⟩ := htodo'
         exact ⟨th, r, rest, rfl, htodo, hc', ho'⟩
+
+end
+
+end Malt.Cache
+
+namespace Malt.Cache
+open Spec Ideal
+
+section
+variable {Opts Factory : Type} [BEq Opts] [LawfulBEq Opts]
+variable {T : Code → Opts → Nat → Option Factory} {P : List (Request Opts)}
+
+/-- What the lookup-or-convert specification has in its table is, for every requester of that key
+in the history, exactly the fresh conversion of that requester. -/
+def TabOK (T : Code → Opts → Nat → Option Factory) (P : List (Request Opts)) (σ : SState Opts Factory) : Prop :=
+  (∀ c o f, σ.table c o = some f → ∀ r ∈ P, r.code = c → r.opts = o → T r.code r.opts r.env.sig = some f) ∧
+  (∀ th ∈ σ.threads, ∀ r ∈ th.todo, r ∈ P)
+
+def serveTid : SLabel → Option Tid
+  | .serve t => some t
+  | .gc _ => none
+
+/-- Under `SigCoherent`, one step of the lookup-or-convert specification is one step (or none, for
+`gc`) of the cache-less specification, and the table stays a table of fresh conversions. -/
+theorem sstep_ideal (hS : ∀ r ∈ P, ∀ r' ∈ P, r.code.val = r'.code.val → r.env.sig = r'.env.sig)
+    {σ : SState Opts Factory} (h : TabOK T P σ) (l : SLabel) :
+    TabOK T P (sstep T σ l) ∧
+    (sstep T σ l).threads = (match serveTid l with | some t => istep T σ.threads t | none => σ.threads) := by
+  obtain ⟨htab, htodo⟩ := h
+  cases l with
+  | gc c =>
+    simp only [sstep, serveTid]
+    split
+    · exact ⟨⟨htab, htodo⟩, rfl⟩
+    · refine ⟨⟨?_, htodo⟩, rfl⟩
+      intro c' o f hf r hr hc ho
+      by_cases hcc : c' = c
+      · simp [hcc] at hf
+      · simp only [hcc, if_false] at hf
+        exact htab c' o f hf r hr hc ho
+  | serve t =>
+    simp only [serveTid]
+    cases hth : σ.threads[t]? with
+    | none =>
+      have e1 : sstep T σ (.serve t) = σ := by simp [sstep, hth]
+      have e2 : istep T σ.threads t = σ.threads := by simp [istep, hth]
+      rw [e1, e2]; exact ⟨⟨htab, htodo⟩, rfl⟩
+    | some th =>
+      cases hto : th.todo with
+      | nil =>
+        have e1 : sstep T σ (.serve t) = σ := by simp [sstep, hth, hto]
+        have e2 : istep T σ.threads t = σ.threads := by simp [istep, hth, hto]
+        rw [e1, e2]; exact ⟨⟨htab, htodo⟩, rfl⟩
+      | cons r rest =>
+        have hthm : th ∈ σ.threads := List.mem_of_getElem? hth
+        have hrP : r ∈ P := htodo th hthm r (by rw [hto]; exact List.mem_cons_self)
+        have htodo' : ∀ x, ∀ th' ∈ σ.threads.set t { todo := rest, results := th.results ++ [(r, x)] },
+            ∀ r' ∈ th'.todo, r' ∈ P := by
+          intro x th' hth' r' hr'
+          rcases mem_set_of hth' with hm | hm
+          · exact htodo th' hm r' hr'
+          · subst hm
+            exact htodo th hthm r' (by rw [hto]; exact List.mem_cons_of_mem _ hr')
+        have e2 : istep T σ.threads t =
+            σ.threads.set t { todo := rest, results := th.results ++ [(r, T r.code r.opts r.env.sig)] } := by
+          simp [istep, hth, hto]
+        rw [e2]
+        cases htb : σ.table r.code r.opts with
+        | some f =>
+          have hT : T r.code r.opts r.env.sig = some f := htab _ _ f htb r hrP rfl rfl
+          have e1 : sstep T σ (.serve t) =
+              { σ with threads := σ.threads.set t { todo := rest, results := th.results ++ [(r, some f)] } } := by
+            simp [sstep, hth, hto, htb]
+          rw [e1, hT]
+          exact ⟨⟨htab, htodo' _⟩, rfl⟩
+        | none =>
+          cases hT : T r.code r.opts r.env.sig with
+          | none =>
+            have e1 : sstep T σ (.serve t) =
+                { σ with threads := σ.threads.set t { todo := rest, results := th.results ++ [(r, none)] } } := by
+              simp [sstep, hth, hto, htb, hT]
+            rw [e1]
+            exact ⟨⟨htab, htodo' _⟩, rfl⟩
+          | some f =>
+            have e1 : sstep T σ (.serve t) =
+                { table := fun c o => if c = r.code ∧ (o == r.opts) = true then some f else σ.table c o,
+                  threads := σ.threads.set t { todo := rest, results := th.results ++ [(r, some f)] } } := by
+              simp [sstep, hth, hto, htb, hT]
+            rw [e1]
+            refine ⟨⟨?_, htodo' _⟩, rfl⟩
+            intro c o f' hf r' hr' hc ho
+            by_cases hk : c = r.code ∧ (o == r.opts) = true
+            · simp only [hk, and_self, if_true, Option.some.injEq] at hf
+              subst hf
+              have ho' : o = r.opts := eq_of_beq hk.2
+              have hcode : r'.code = r.code := hc.trans hk.1
+              have hsig : r'.env.sig = r.env.sig := hS r' hr' r hrP (by rw [hcode])
+              rw [hcode, ho, ho', hsig]; exact hT
+            · simp only [hk, if_false] at hf
+              exact htab c o f' hf r' hr' hc ho
+
+theorem srun_ideal (hS : ∀ r ∈ P, ∀ r' ∈ P, r.code.val = r'.code.val → r.env.sig = r'.env.sig)
+    (ls : List SLabel) : ∀ {σ : SState Opts Factory}, TabOK T P σ →
+    (srun T σ ls).threads = irun T σ.threads (ls.filterMap serveTid) := by
+  induction ls with
+  | nil => intro σ _; rfl
+  | cons l rest ih =>
+    intro σ h
+    obtain ⟨h', hth⟩ := sstep_ideal (T := T) hS h l
+    show (srun T (sstep T σ l) rest).threads = _
+    rw [ih h']
+    cases hl : serveTid l with
+    | none => simp [hl] at hth; simp [List.filterMap_cons, hl, hth]
+    | some t => simp [hl] at hth; simp [List.filterMap_cons, hl, hth, irun]
 
 end
 
